@@ -123,7 +123,8 @@ def get_raw_params(input_file_stem,
     raw_params['num_pols'] = num_pols
     
     raw_params['block_size'] = int(header['BLOCSIZE'])
-    raw_params['obs_length'] = float(header['SCANLEN'])
+    # SCANLEN is informational; a recording from elsewhere may not carry it
+    raw_params['obs_length'] = float(header['SCANLEN']) if 'SCANLEN' in header else None
     raw_params['tbin'] = float(header['TBIN'])
     
     try:
